@@ -4,9 +4,32 @@
   `Ema.Update(ts, sample)`: the first sample initialises the value; afterwards
   `value = sample * (1 - w) + value * w` with `w = exp(-(ts - last_ts) / window)`.
   The decay weight `w` is a parameter here (`math.exp` is not modelled; the harness passes the
-  exact rational of the float the implementation computed).  Import-free.
+  exact rational of the float the implementation computed); `weightLegal` says what is known about
+  it without modelling `exp`.
+
+  `MonoClock` (same file of the code): the time source of the aperture's EMA.  `Sample()` reads the wall
+  clock and returns `_last`, moved forward to the reading only if the reading is later:
+  the sampled time never decreases, whatever the wall clock does.  Import-free.
 -/
+namespace Scales.MonoClock
+
+/-- `MonoClock.Sample()` with `_last = last` when the wall clock reads `now`: the new `_last`, which is also
+    the value returned (`if now - self._last > 0: self._last = now; return self._last`) -/
+def sample (last now : Rat) : Rat := if now - last > 0 then now else last
+
+/-- the values returned by successive `Sample()` calls for a sequence of wall-clock readings -/
+def samples (last : Rat) : List Rat → List Rat
+  | [] => []
+  | now :: rest => sample last now :: samples (sample last now) rest
+
+end Scales.MonoClock
+
 namespace Scales.Ema
+
+/-- What is known of `w = math.exp(-dt / window)` (window > 0) without modelling `exp`: it is not negative
+    (it may underflow to 0), at most 1 when `dt ≥ 0`, at least 1 when `dt ≤ 0` (so exactly 1 for `dt = 0`). -/
+def weightLegal (dt w : Rat) : Bool :=
+  decide (0 ≤ w) && (!decide (0 ≤ dt) || decide (w ≤ 1)) && (!decide (dt ≤ 0) || decide (1 ≤ w))
 
 /-- one smoothing step with decay weight `w` -/
 def step (w prev sample : Rat) : Rat := sample * (1 - w) + prev * w
